@@ -12,9 +12,11 @@
 **   raw     a Cello type of 8 raw bytes WITHOUT a Cmp instance (default byte-wise cmp)
 **   raw1 raw3 raw4 raw7 raw9 raw12 raw16 raw20 raw21   the same for structs of those sizes (tails
 **           of 1..7 bytes behind the last whole word; pairs that differ only in the last byte)
+**   raw63 raw64 raw65 raw72 raw100 raw127 raw128 raw129 raw200 raw300   big structs: first / last byte and
+**           the bytes on both sides of every 64-byte boundary varied (reduced grid, see vf_cmp.h)
 **
 ** Parameters:  dom=all | comma list of int,float,string,type,raw     grid=small|large
-**              (rawall = every raw* domain)
+**              (rawall = every raw* domain, rawbig = raw63 .. raw300)
 **              replay="<dom> pair i j" | "<dom> triple i j k" | "<dom> triples i j"
 **                     | "<dom> tree|table <order>"
 **
@@ -312,8 +314,18 @@ static void build_domain(const char* name) {
     D.n = RW->n; D.ref = raw_ref; D.feat = raw_feat; D.desc = raw_desc; D.stackcmp = raw_stackcmp; D.ktype = RW->type; D.use_table = 1;
     D.no_tree = RW->size % 8 != 0 && !vf_param_i("oddtree", 0);   /* oddtree=1: do not skip (for a tree that rounds its key size) */
     for (int i = 0; i < RW->n; i++) {
-      D.A[i] = alloc_raw(RW->type); memcpy(D.A[i], RW->v[i], RW->size);
-      D.B[i] = alloc_raw(RW->type); memcpy(D.B[i], RW->v[i], RW->size);
+#ifdef VF_ASAN
+      /* exactly sized heap objects: the sanitizer sees a comparison that reads past the struct */
+      D.A[i] = alloc_raw(RW->type); D.B[i] = alloc_raw(RW->type);
+#else
+      /* heap-class objects followed by two DIFFERENT canary zones: a comparison that reads past the struct
+      ** calls equal values unequal (header_init(..., AllocHeap) is what alloc_raw does) */
+      char* ba = calloc(1, sizeof(struct Header) + RW->size + 72); char* bb = calloc(1, sizeof(struct Header) + RW->size + 72);
+      D.A[i] = header_init(ba, RW->type, AllocHeap); D.B[i] = header_init(bb, RW->type, AllocHeap);
+      memset((char*)D.A[i] + RW->size, 0xA5, 72); memset((char*)D.B[i] + RW->size, 0x5A, 72);
+#endif
+      memcpy(D.A[i], RW->v[i], RW->size);
+      memcpy(D.B[i], RW->v[i], RW->size);
     }
   } else { fprintf(stderr, "h_cmp: unknown domain %s\n", name); _exit(2); }
   D.R = malloc((size_t)D.n * D.n);
@@ -366,8 +378,18 @@ static void run_domain(const char* name) {
   vf_extra(name, "{\"values\": %d, \"distinct\": %d, \"pairs\": %d, \"triples\": %" PRIu64 "}", n, ndistinct, n * n, (uint64_t)n * n * n);
 }
 
+/* an uncaught Cello exception ends in exit(1): attribute it to the case in progress and keep the results */
+static void on_uncaught_exit(void) {
+  char label[96];
+  snprintf(label, sizeof label, "%s/uncaught-exception", vf.phase ? vf.phase : "run");
+  vf.aborted = 1;
+  vf_violation(label, vf_cur_valid ? vf_cur : "(no case in progress)", "the library raised an exception nobody expected while executing the case (exploration of this instance stopped here)");
+  vf_write();
+}
+
 int main(int argc, char** argv) {
   vf_init(argc, argv);
+  atexit(on_uncaught_exit);
   vfg_build(vf_param_is("grid", "large", "small"));
 
   const char* doms = vf_param("dom", "all");
@@ -376,18 +398,9 @@ int main(int argc, char** argv) {
     if (sscanf(vf.replay, "%15s", dn) == 1) run_domain(dn);
     vf_finish();
   }
-  static const char* all[] = { "int", "float", "string", "type", "raw", "raw1", "raw3", "raw4", "raw7", "raw9", "raw12", "raw16", "raw20", "raw21" };
+  static const char* all[] = { "int", "float", "string", "type", "raw", "raw1", "raw3", "raw4", "raw7", "raw9", "raw12", "raw16", "raw20", "raw21", "raw63", "raw64", "raw65", "raw72", "raw100", "raw127", "raw128", "raw129", "raw200", "raw300" };
   for (size_t q = 0; q < sizeof all / sizeof all[0]; q++) {
-    if (strcmp(doms, "all") != 0) {
-      /* comma separated membership test */
-      const char* p = doms; int hit = 0; size_t l = strlen(all[q]);
-      while (*p) {
-        if (strncmp(p, all[q], l) == 0 && (p[l] == ',' || p[l] == 0)) { hit = 1; break; }
-        if (strncmp(p, "rawall", 6) == 0 && (p[6] == ',' || p[6] == 0) && strncmp(all[q], "raw", 3) == 0) { hit = 1; break; }
-        p = strchr(p, ','); if (!p) break; p++;
-      }
-      if (!hit) continue;
-    }
+    if (!vfg_dom_selected(doms, all[q])) continue;
     run_domain(all[q]);
   }
   vf.states = 0;
